@@ -1141,6 +1141,7 @@ def fe_isar(case):
                "size2": '<dimension size="%d" size2="%d"/>' % (m["n"], m["aux"]),
                "var": '<dimension isVariableSize="true"/>',
                "varsize": '<dimension size="%d" isVariableSize="true"/>' % m["n"],
+               "varsize2": '<dimension size="%d" size2="%d" isVariableSize="true"/>' % (m["n"], m["aux"]),
                "varnamed": '<dimension isVariableSize="true" variableSizeFieldName="cnt_%s" variableSizeFieldType="u8"/>' % m["nm"],
                }[m["dim"]]
         ms.append("<member %s>%s</member>" % (attrs, dim) if dim else "<member %s/>" % attrs)
